@@ -157,7 +157,11 @@ def run_stream(tag, tier, seed, on_case=None, classes=None, sizes=None):
     t0 = time.time()
     cases, metas, problems = [], [], []
     for desc in case_list(seed, n_class, n_raw, classes):
-        inp, dump, meta, func = rebuild(desc)
+        try:
+            inp, dump, meta, func = rebuild(desc)
+        except Exception as e:      # recording samples / generating / reading the tables must not raise
+            problems.append(dict(kind="implementation-raised", case=desc, error=repr(e)[:500]))
+            continue
         cases.append((inp, dump))
         metas.append(meta)
         if on_case:
